@@ -44,6 +44,19 @@ struct SplineCase {
   std::string dur_shape;
   double M = 0;  // magnitude of the positions (max |P| incl. offset)
 
+  // magnitude of the data of coordinate d that the coefficients are computed from: positions and
+  // the boundary derivatives the order-S spline uses, made commensurate with the segment length
+  long double data_mag(int d, int S) const {
+    long double Md = 0;
+    for (int i = 0; i <= N; ++i) Md = std::max(Md, fabsl((long double)P(i, d)));
+    long double Tmax = T[0]; for (double x : T) Tmax = std::max<long double>(Tmax, x);
+    for (int m = 1; m < S; ++m) {
+      long double pw = 1; for (int k = 0; k < m; ++k) pw *= Tmax;
+      Md = std::max(Md, fabsl((long double)bc_field(false, m)(d)) * pw);
+      Md = std::max(Md, fabsl((long double)bc_field(true, m)(d)) * pw);
+    }
+    return Md;
+  }
   std::vector<double> time_points() const {
     std::vector<double> tp(N + 1);
     tp[0] = t0;
